@@ -28,6 +28,33 @@ KIND = {"q": "qDOF", "q_dot": "qDOF", "u": "uDOF", "u_dot": "uDOF", "la_c": "la_
         "P_gamma": "la_gammaDOF", "la_N": "la_NDOF", "P_N": "la_NDOF", "la_F": "la_FDOF", "P_F": "la_FDOF"}
 
 
+def timestep_format(ctx, rule="C29.R14"):
+    """'lists existing data files in time order, one per exported frame': the listed time is the frame's time to a fixed absolute resolution.
+    A general format keeps a fixed number of SIGNIFICANT digits, so its absolute resolution degrades with |t| (late start, long horizon)."""
+    rep = ctx.rep
+    VT = "cardillo/visualization/vtk_export.py"
+    cls = ctx.repo.get(VT, "Export")
+    n = 0
+    for fn in [f for f in cls.body if isinstance(f, ast.FunctionDef)]:
+        for c in [w for w in ast.walk(fn) if isinstance(w, ast.Call) and isinstance(w.func, ast.Attribute) and w.func.attr == "setAttribute" and len(w.args) == 2
+                  and isinstance(w.args[0], ast.Constant) and w.args[0].value == "timestep"]:
+            n += 1
+            C = f"{VT}:Export.{fn.name}"
+            v = c.args[1]
+            specs = [norm_src(x.format_spec).strip("f'\"") if x.format_spec is not None else "" for x in ast.walk(v) if isinstance(x, ast.FormattedValue)]
+            if isinstance(v, ast.JoinedStr) and specs:
+                sp = specs[0]
+                if sp.endswith(("g", "G", "e", "E")) or sp == "":
+                    rep.bad(rule, C, c, f"`{norm_src(c)[:70]}` writes the frame time with format `{sp or 'str()'}`: a fixed number of significant digits - frames at t = 20000.00, 20000.01, ... are all "
+                            "listed as 20000, the collection is no longer in strict time order and a file is listed under a time it was not computed for", f"{VT}:{c.lineno}")
+                else:
+                    rep.ok(rule, C, f"timestep written with fixed format `{sp}`")
+            else:
+                rep.ok(rule, C, f"`{norm_src(v)[:40]}`: format of the listed time not recognised (no verdict)", verdict="unknown")
+    if n < 1:
+        rep.ok(rule, VT, "no timestep attribute written (no verdict)", verdict="unknown", trivial=True)
+
+
 def export_element_of_xi(ctx, rule="C29.R13"):
     """The rod kernels are evaluated with the element's coordinates `q[self.elDOF[el]]` and the basis functions at xi; both only fit together
     if el is the element whose knot span contains xi.  In the export routines every call of a rod method that takes both `xi` and `el`
@@ -125,6 +152,8 @@ def merge_is_concatenation(ctx, rule="C29.R11"):
 
 def run(ctx):
     rep = ctx.rep
+    rep.rule("C29.R14", "the collection lists every frame at its own time: the timestep attribute is written in FIXED notation (a 'g' / significant-digit format rounds t = 20000.03 to 20000 and neighbouring frames collapse onto one listed time)", 1)
+    timestep_format(ctx)
     rep.rule("C29.R13", "rod export: a quantity evaluated at (xi, el) gets the element that CONTAINS xi (self.element_number(xi)), not the index of the vtk cell - cells and elements differ as soon as ncells != nelement", 1)
     export_element_of_xi(ctx)
     rep.rule("C29.R12", "export routines do not serve remembered geometry across frames unless the memory is keyed by everything the geometry depends on - the frame's TIME included (a prescribed-motion Frame has no coordinates: its pose depends on sol_i.t alone)", 0)
@@ -875,4 +904,9 @@ NEUTRAL += [
 MUTANTS += [
     dict(id="c29-r13-f56", canary=True, what="fix F56 reverted: the surface normals of the volume export are evaluated in element `i` = index of the vtk cell", file='cardillo/rods/_base_export.py',
          old='                        xi = (i + layer / p_zeta) / ncells\n                        # the vtk cells need not coincide with the elements; the\n                        # last layer of a cell belongs to the element ending there\n                        el = self.element_number(xi)\n                        if (\n                            layer == p_zeta\n                            and el > 0\n                            and np.isclose(self.element_interval(el)[0], xi)\n                        ):\n                            el -= 1\n', new='                        el = i\n                        xi = (i + layer / p_zeta) / ncells\n', expect="C29.R13"),
+]
+
+MUTANTS += [
+    dict(id="c29-r14-seed", canary=True, what="[seeded by sub-agent] the .pvd timestep attribute is written with the general format {t:g} (six significant digits)", file='cardillo/visualization/vtk_export.py',
+         old='        dataset.setAttribute("timestep", f"{t:0.6f}")\n', new='        dataset.setAttribute("timestep", f"{t:g}")\n', expect="C29.R14"),
 ]
